@@ -255,6 +255,14 @@ Arguments item A : clear implicits.
 Arguments chunker A : clear implicits.
 Arguments bstate A : clear implicits.
 
+(* ------------------------------------------------------------------ abstract specification.
+   "re-sliced into chunks of exactly n rows except the last, none empty, nothing lost": [flat] are the
+   output chunks (each flattened to its rows) of the data [R] *)
+Definition exact_chunks {A} (n : nat) (R : list A) (flat : list (list A)) : Prop :=
+  concat flat = R /\
+  Forall (fun c => c <> [] /\ length c <= n) flat /\
+  (forall pre c post, flat = pre ++ c :: post -> post <> [] -> length c = n).
+
 (* ------------------------------------------------------------------ correspondence checkers.
    Input : (size parameter, inner stream) with rows = N values; an inner item is Some rows | None (Err).
    Output: what the real stream yielded, or Panic. *)
